@@ -589,9 +589,17 @@ def repository_identity(prog, an, rep):
                 g.where(p_), 'a github webhook can build / enqueue a job '
                 'without the check "%s"' % label,
                 path=cg.describe_path(path))
-    fn = [v for _, v in stores_to(g, 'full_name') if v is not None]
-    rep.check(len(fn) == 1 and "get('repository'" in src(fn[0]) and
-              "get('full_name')" in src(fn[0]), R, g.qname +
+    # what is compared with the configured owner/slug comes from the
+    # payload: <json>.get('repository', {}).get('full_name')
+    fn = []
+    for t in an.test_nodes(g, lambda e: isinstance(e, ast.Compare),
+                           expand=None):
+        e_ = substitute_locals(g, t.ast)
+        for side in (e_.left, e_.comparators[0]):
+            if "get('full_name')" in src(side):
+                fn.append(side)
+    rep.check(len(fn) >= 1 and all("get('repository'" in src(x)
+                                   for x in fn), R, g.qname +
               ': full_name read from the payload', g.where(),
               'full_name is %s' % [src(v) for v in fn])
 
